@@ -8,7 +8,7 @@
    composite indicators and whole operation programs: correspondence + falsifier. *)
 From Coq Require Import ZArith List String Bool.
 From Hexital Require Import Base.Prelude Base.Num Model.Manager Model.Candle Model.Readings Model.Engine
-  Proofs.AccessProofs Proofs.EngineProofs Proofs.MaintProofs Proofs.CompositeProofs Proofs.AtrCompose Proofs.DataSlot Proofs.DataInst Proofs.DataThms.
+  Proofs.AccessProofs Proofs.EngineProofs Proofs.MaintProofs Proofs.CompositeProofs Proofs.AtrCompose Proofs.CausalProofs Proofs.DataSlot Proofs.DataInst Proofs.DataThms Proofs.CompositeData Proofs.ThresCompose.
 Import ListNotations.
 
 Theorem C14_purge_exact :
@@ -142,3 +142,16 @@ Proof.
   eapply DR_calc_index with (st0 := s2) (st := s3) (i := (-1)%Z); [|exact H3|Lia.lia|exact H4].
   eapply DR_append; [apply DR_purge; eapply DR_append; [apply DR_init|exact Hx|exact H1]|exact Hy|exact H2].
 Qed.
+
+(* calling calculate() again changes nothing *)
+Theorem C14_stdevthres_calculate_idempotent :
+  forall (O : NumOps) (period : Z) (mult : num O) (input name : string) (rnd : Z),
+  (1 <= period)%Z -> has_dot name = false ->
+  (forall q, candle_attr O q (sdn name ++ "_data")%string = None) ->
+  stable O (Pt O period mult input name rnd) input -> stable O (St O period input name) input ->
+  stable O (dataM O (St O period input name)) input ->
+  forall (xs : list (cd (payload O))) (st : store O),
+  Forall (fresh_thres O period mult input name rnd) xs ->
+  calculate O (Pt O period mult input name rnd) xs = Ok st -> calculate O (Pt O period mult input name rnd) st = Ok st.
+Proof. intros O period mult input name rnd Hp Hn Ha H1 H2 H3. apply thres_calculate_idempotent; assumption. Qed.
+Print Assumptions C14_stdevthres_calculate_idempotent.
